@@ -9,6 +9,14 @@ From TarpcV Require Import Base Transport TimerWheel Server ServerMon ServerFuel
 Lemma G_F12 : forall o o', F12 o' = F12 o -> G o -> G o'.
 Proof. intros o o' E HG. unfold F12 in E. injection E as E1 E2 E3 E4 E5. unfold G in *. rewrite E2, E3, E4, E5. exact HG. Qed.
 
+(* the two things used of A's TopH (kept in one place: TopH is still evolving) *)
+Lemma toph_invh : forall (T : Type) o (s : @sstate T),
+  TopH o s -> h_stop (o_v o) = true -> h_b1 (o_v o) = true -> c_err (o_v o) = false -> InvH o s.
+Proof. intros T o s H E1 E2 E3. destruct (H E1 E2) as (_ & _ & _ & _ & K). exact (K E3). Qed.
+Lemma toph_safe : forall (T : Type) o (s : @sstate T),
+  TopH o s -> h_stop (o_v o) = true -> h_b1 (o_v o) = true -> Safe s.
+Proof. intros T o s H E1 E2. destruct (H E1 E2) as (K & _). exact K. Qed.
+
 Section V12C.
   Context {T C : Type}.
   Variable tp : transport T response cmsg.
@@ -67,8 +75,8 @@ Section V12C.
     assert (HB0 : BInv (start_poll o) (set_log s [])).
     { split; [exact HI0|split; [|exact EC]]. eapply handled_sub; eauto. }
     assert (HN0 : h_b1 (o_v (start_poll o)) = true -> NSh (start_poll o) (set_log s [])).
-    { intros Hb1. cbn [start_poll o_v] in Hb1. destruct (HH EH Hb1) as (_ & _ & _ & HIH).
-      pose proof (NSh_of_InvH o s HI (HIH EC)) as K. exact K. }
+    { intros Hb1. cbn [start_poll o_v] in Hb1.
+      pose proof (NSh_of_InvH o s HI (toph_invh T o s HH EH Hb1 EC)) as K. exact K. }
     destruct (requests_c tp lim (start_poll o) (set_log s []) HI0 HN0 (FM_start_poll o)
                 c (poll_fuel tfuel s) (set_log s []) r s2 (start_poll o) eq_refl HB0 Hnt
                 (OM_refl _) (SM_refl _) HG ER) as (new & X & GN).
@@ -83,8 +91,9 @@ Proof. intros A k; destruct k; reflexivity. Qed.
 
 Lemma toph_init : forall (T : Type) (c : cfg) (t0 : T), TopH o_init (init c t0).
 Proof.
-  intros T c t0 _ _. split; [|split; [reflexivity|split; [reflexivity|intros _]]].
+  intros T c t0 _ _. split; [|split; [|split; [reflexivity|split; [reflexivity|intros _]]]].
   - intros k hr H. cbn in H. rewrite nth_nil_none in H. discriminate.
+  - intros k oi H. cbn in H. rewrite nth_nil_none in H. discriminate.
   - constructor; cbn [o_init o_incs init s_handlers s_respq s_cancels].
     + intros k oi H. rewrite nth_nil_none in H. discriminate.
     + intros k oi H. rewrite nth_nil_none in H. discriminate.
